@@ -52,7 +52,10 @@ pub fn distance(metric: Metric, q: &[f32], v: &[f32]) -> OracleDist {
             Metric::BqCosine => h / (n.div_ceil(64) * 64) as f64,
             _ => unreachable!(),
         };
-        return OracleDist { d, tol: d.abs() * 8.0 * U + 1e-9, accurate: true, zero_ok: false };
+        // Euclidean / Manhattan: one integer-valued f32 divided by the dimension (one rounding).
+        // Cosine goes through fl(sqrt(L))^2 and a division: absolute error up to a few 2^-24.
+        let tol = if metric == Metric::BqCosine { 4.0 * U } else { d.abs() * 8.0 * U + 1e-9 };
+        return OracleDist { d, tol, accurate: true, zero_ok: false };
     }
     let finite = q.iter().chain(v.iter()).all(|x| x.is_finite());
     if !finite {
